@@ -55,6 +55,9 @@ class Report:
     def finish(self):
         kf_path = os.path.join(VERIF, "known_findings.json")
         known = json.load(open(kf_path))["findings"] if os.path.exists(kf_path) else []
+        frag = os.path.join(VERIF, "known_findings.d", self.pid + ".json")     # per-property fragment (same format)
+        if os.path.exists(frag):
+            known += json.load(open(frag))["findings"]
         open_keys = {f["key"]: f for f in known if f["property"] == self.pid and f["status"] == "open"}
         new, seen_known = [], {}
         for v in self.violations:
